@@ -20,6 +20,7 @@ import (
 	"compress/gzip"
 	"io"
 	"net/http"
+	"strconv"
 	"strings"
 
 	"github.com/tmpim/casket"
@@ -51,9 +52,36 @@ type Config struct {
 	Level           int // Compression level
 }
 
+// acceptsGzip reports whether the request offers the gzip coding: some
+// Accept-Encoding line lists the token gzip (or its alias x-gzip) and
+// does not refuse it with q=0.
+func acceptsGzip(r *http.Request) bool {
+	for _, line := range r.Header["Accept-Encoding"] {
+		for _, item := range strings.Split(line, ",") {
+			coding, params, _ := strings.Cut(item, ";")
+			coding = strings.ToLower(strings.TrimSpace(coding))
+			if coding != "gzip" && coding != "x-gzip" {
+				continue
+			}
+			refused := false
+			for _, param := range strings.Split(params, ";") {
+				name, value, _ := strings.Cut(param, "=")
+				if strings.EqualFold(strings.TrimSpace(name), "q") {
+					q, err := strconv.ParseFloat(strings.TrimSpace(value), 64)
+					refused = err == nil && q == 0
+				}
+			}
+			if !refused {
+				return true
+			}
+		}
+	}
+	return false
+}
+
 // ServeHTTP serves a gzipped response if the client supports it.
 func (g Gzip) ServeHTTP(w http.ResponseWriter, r *http.Request) (int, error) {
-	if !strings.Contains(r.Header.Get("Accept-Encoding"), "gzip") {
+	if !acceptsGzip(r) {
 		return g.Next.ServeHTTP(w, r)
 	}
 outer:
